@@ -72,29 +72,30 @@ type pointRec struct {
 
 // Exec is one execution.
 type Exec struct {
-	threads  []*Thread
-	cur      *Thread
-	prefix   []int
-	points   []pointRec
-	cost     int
-	clock    time.Duration
-	timers   []*Timer
-	timerSeq int
-	teardown bool
-	finished chan struct{}
-	wg       sync.WaitGroup
-	steps    int
-	maxSteps int
-	closed   map[uintptr]bool
-	res      *Result
-	trace    bool
-	monitor  func()
-	nextID   int
-	locals   map[interface{}]interface{}
+	threads    []*Thread
+	cur        *Thread
+	prefix     []int
+	points     []pointRec
+	cost       int
+	clock      time.Duration
+	timers     []*Timer
+	timerSeq   int
+	teardown   bool
+	finished   chan struct{}
+	wg         sync.WaitGroup
+	steps      int
+	maxSteps   int
+	closed     map[uintptr]bool
+	res        *Result
+	trace      bool
+	monitor    func()
+	nextID     int
+	optBuf     []option
+	locals     map[interface{}]interface{}
 	delayBound bool
-	held     map[interface{}]func()
-	diverged string
-	mu       sync.Mutex // protects nothing in normal operation; used by paranoid checks
+	held       map[interface{}]func()
+	diverged   string
+	mu         sync.Mutex // protects nothing in normal operation; used by paranoid checks
 }
 
 // Result is what one execution produced (besides what the harness observed).
@@ -209,27 +210,6 @@ func (x *Exec) reap() {
 	x.held = nil
 }
 
-func (x *Exec) enabledList(self *Thread) []*Thread {
-	// canonical order: self first if enabled, then ascending ids; timers are
-	// handled separately (they come after all threads).
-	var out []*Thread
-	if self != nil && self.state == tPending && !self.sleeping && x.opEnabled(self) && self.op.quiesce == 0 {
-		out = append(out, self)
-	}
-	for _, t := range x.threads {
-		if t == self || t.state != tPending || t.op == nil || t.op.quiesce != 0 {
-			continue
-		}
-		if t.sleeping {
-			continue
-		}
-		if x.opEnabled(t) {
-			out = append(out, t)
-		}
-	}
-	return out
-}
-
 func (x *Exec) opEnabled(t *Thread) bool {
 	if t.op == nil {
 		return false
@@ -247,10 +227,22 @@ type option struct {
 	timed bool // firing it lets virtual time pass (timer or sleeper wake-up)
 }
 
+// options lists what can run next, in canonical order: self first if enabled,
+// then the other enabled threads by ascending id, then sleepers and timers with
+// the minimal virtual deadline; a quiescing thread only when nothing else can.
+// The returned slice is reused by the next call.
 func (x *Exec) options(self *Thread) []option {
-	var opts []option
-	for _, t := range x.enabledList(self) {
-		opts = append(opts, option{t: t})
+	opts := x.optBuf[:0]
+	if self != nil && self.state == tPending && !self.sleeping && self.op != nil && self.op.quiesce == 0 && x.opEnabled(self) {
+		opts = append(opts, option{t: self})
+	}
+	for _, t := range x.threads {
+		if t == self || t.state != tPending || t.op == nil || t.op.quiesce != 0 || t.sleeping {
+			continue
+		}
+		if x.opEnabled(t) {
+			opts = append(opts, option{t: t})
+		}
 	}
 	// timers and sleepers: only those with the minimal virtual deadline
 	min := time.Duration(-1)
@@ -271,23 +263,29 @@ func (x *Exec) options(self *Thread) []option {
 				opts = append(opts, option{t: t, timed: true})
 			}
 		}
-		var tl []*Timer
+		first := len(opts)
 		for _, tm := range x.timers {
 			if tm.armed && tm.deadline == min {
-				tl = append(tl, tm)
+				opts = append(opts, option{timer: tm, timed: true})
 			}
 		}
-		sort.Slice(tl, func(i, j int) bool { return tl[i].seq < tl[j].seq })
-		for _, tm := range tl {
-			opts = append(opts, option{timer: tm, timed: true})
+		// timers in arming order (insertion sort: there are very few)
+		for i := first + 1; i < len(opts); i++ {
+			for j := i; j > first && opts[j].timer.seq < opts[j-1].timer.seq; j-- {
+				opts[j], opts[j-1] = opts[j-1], opts[j]
+			}
 		}
 	}
 	// quiescing threads: enabled only when nothing else is
 	if nonTimer == 0 {
 		for _, t := range x.threads {
 			if t.state == tPending && t.op != nil && t.op.quiesce == 2 {
-				// ignoring timers
-				return append([]option{{t: t}}, opts...)
+				// ignoring timers: the quiescer first, then the timers
+				opts = append(opts, option{})
+				copy(opts[1:], opts[:len(opts)-1])
+				opts[0] = option{t: t}
+				x.optBuf = opts
+				return opts
 			}
 		}
 	}
@@ -299,6 +297,7 @@ func (x *Exec) options(self *Thread) []option {
 			}
 		}
 	}
+	x.optBuf = opts
 	return opts
 }
 
@@ -913,7 +912,8 @@ type Stats struct {
 // (default choice after the prefix) and returns the result.
 func RunOnce(prefix []int, opts Options, body func()) *Result {
 	x := &Exec{prefix: prefix, finished: make(chan struct{}), maxSteps: opts.MaxSteps, closed: map[uintptr]bool{},
-		res: &Result{}, trace: opts.Trace, monitor: opts.Monitor, delayBound: opts.Delay}
+		res: &Result{}, trace: opts.Trace, monitor: opts.Monitor, delayBound: opts.Delay,
+		points: make([]pointRec, 0, 512), optBuf: make([]option, 0, 16)}
 	if x.maxSteps == 0 {
 		x.maxSteps = 100000
 	}
